@@ -286,7 +286,7 @@ fn public_case(ctx: &mut Ctx, case: &Json) {
     let domain = rng.range(n / 2 + 1, n * 2);
     for i in 0..n {
         let x = rng.below(domain);
-        let rc = match rng.below(3) {
+        let rc = match rng.below(5) {
             0 => {
                 let item = (salt, x);
                 sk.update(item);
@@ -297,11 +297,21 @@ fn public_case(ctx: &mut Ctx, case: &Json) {
                 sk.update(item.as_str());
                 m::row_col_of_bytes(&rt::hashed_bytes(&item.as_str()), seed, lg_k)
             }
-            _ => {
+            2 => {
                 let v = x as f64 / 8.0 - 1.0;
                 sk.update_f64(v);
                 let bits = if v == 0.0 { 0u64 } else { v.to_bits() };
                 m::row_col_of_bytes(&rt::hashed_bytes(&bits), seed, lg_k)
+            }
+            3 => {
+                let v = rt::special_f64(&mut rng);
+                sk.update_f64(v);
+                m::row_col_of_bytes(&rt::hashed_bytes(&rt::canonical_f64_bits(v)), seed, lg_k)
+            }
+            _ => {
+                let v = rt::special_f32(&mut rng);
+                sk.update_f32(v);
+                m::row_col_of_bytes(&rt::hashed_bytes(&rt::canonical_f64_bits(v as f64)), seed, lg_k)
             }
         };
         let before_off = model.offset;
@@ -387,6 +397,25 @@ pub fn run(ctx: &mut Ctx) {
                 ctx.sample(case);
             }
         }
+    }
+    // larger k (one configuration per shard): row indices beyond 16 bits, tables beyond 2^16 entries, the first
+    // window moves; a hook lane to C = 4.5 K and a public lane in the sparse phase
+    let top = ctx.tier_pick(17u8, 22);
+    for lg_k in 13..=top {
+        if (lg_k as usize) % ctx.nshards != ctx.shard {
+            continue;
+        }
+        let k = 1u64 << lg_k;
+        let case = Json::obj()
+            .set("lane", "hook")
+            .set("lg_k", lg_k)
+            .set("c_max", k * 9 / 2)
+            .set("stride", k / 2)
+            .set("plant", lg_k % 2 == 0)
+            .set("seed", ctx.case_seed("hookmid", lg_k as u64));
+        run_case(ctx, &case);
+        let case = Json::obj().set("lane", "public").set("lg_k", lg_k).set("n", (k / 16).min(40_000)).set("seed", ctx.case_seed("publicmid", lg_k as u64));
+        run_case(ctx, &case);
     }
     if !ctx.quick() {
         // big-k spot checks: lg_k 21 up to a few window moves
